@@ -40,6 +40,10 @@ COMMON_TRUSTED = [
 ]
 
 
+# table groups of tools/extract_tables.py every network-side model depends on
+DEFAULT_TABLES = ["mask", "reqtypemap", "cpt", "reqtypes", "badtokens", "tokenconsts", "options"]
+
+
 def env_offline():
     e = dict(os.environ)
     e["CARGO_NET_OFFLINE"] = "true"
@@ -116,6 +120,18 @@ def proof_step(pid, cfg, tier, log):
         log.write("== extract_tables\n" + t.stdout + "\n")
         if t.returncode != 0:
             res["problems"].append({"what": "table-extraction", "detail": t.stdout[-2000:]})
+        # a table group the translator could not re-extract (the committed fallback was used so that
+        # everything still builds) breaks the tie to the source for the properties that depend on it
+        try:
+            failed = json.load(open(os.path.join(LEAN, "Adb", "Generated", "extraction_status.json"))).get("failed", {})
+        except Exception:
+            failed = {}
+        deps = set(DEFAULT_TABLES) | set(cfg.get("tables", []))
+        for name, why in failed.items():
+            if name in deps:
+                res["problems"].append({"what": "table-extraction", "table": name, "detail": why})
+            else:
+                log.write(f"(table group {name} not re-extracted: {why}; not used by this property)\n")
         b = run(["lake", "build"] + mods + ["adbdrv", "Audit"], cwd=LEAN, timeout=3000)
         log.write("== lake build\n" + b.stdout + "\n")
         build_ok = b.returncode == 0
